@@ -41,6 +41,13 @@ theorem fileNew_track (l : σ) (args : Option (Nat × Mode)) :
   | none => simp [fileNew]
   | some a => obtain ⟨k, m⟩ := a; simpa [fileNew] using fileOpen_track io l none k m
 
+/-- Process_New (always opens; too few arguments: IndexOutOfBoundsError, nothing called, nothing held) -/
+theorem procNew_track (l : σ) (args : Option (Nat × Mode)) :
+    track none (procNew io Cfg.fixed l args).calls = some (procNew io Cfg.fixed l args).f := by
+  cases args with
+  | none => simp [procNew]
+  | some a => obtain ⟨k, m⟩ := a; simpa [procNew] using fileOpen_track io l none k m
+
 theorem fileSeek_track (l : σ) (f : Option Handle) (off : Int) (wh : Whence) :
     track f (fileSeek io l f off wh).calls = some (fileSeek io l f off wh).f ∧ (fileSeek io l f off wh).f = f := by
   cases f with
@@ -206,6 +213,15 @@ theorem fileNew_fail_none (l : σ) (args : Option (Nat × Mode)) :
     rcases ho : io.fopen l k m with ⟨l2, r⟩
     cases r <;> simp [fileNew, fileOpen, ho]
 
+theorem procNew_fail_none (l : σ) (args : Option (Nat × Mode)) :
+    (match (procNew io Cfg.fixed l args).out with | .ok _ => True | _ => (procNew io Cfg.fixed l args).f = none) := by
+  cases args with
+  | none => simp [procNew]
+  | some a =>
+    obtain ⟨k, m⟩ := a
+    rcases ho : io.fopen l k m with ⟨l2, r⟩
+    cases r <;> simp [procNew, fileOpen, ho]
+
 /-- what `stepR` produces continues object `o`'s own well-bracketed log and ends holding what the object holds -/
 theorem stepR_track (s : Multi σ) (o : Nat) (m : MOp) (r : R σ Val) (keep : Bool)
     (h : s.stepR io Cfg.fixed o m = some (r, keep)) (hc : s.copiesOpen o m = false) :
@@ -266,6 +282,22 @@ theorem stepR_track (s : Multi σ) (o : Nat) (m : MOp) (r : R σ Val) (keep : Bo
       simp only [Multi.held, hl, R.val] at *
       rw [ht]
       cases hout : (fileNew io Cfg.fixed s.lib args).out with
+      | ok v => simp [hout, Out.map] at hk; subst hk; simp
+      | raised e => simp [hout, Out.map] at hk hf; subst hk; simp [hf]
+      | ub => simp [hout, Out.map] at hk hf; subst hk; simp [hf]
+  | pnew args =>
+    simp only [Multi.stepR] at h
+    cases hl : lookup o s.objs with
+    | some f => simp [hl] at h
+    | none =>
+      simp only [hl, Option.some.injEq, Prod.mk.injEq] at h
+      obtain ⟨hr, hk⟩ := h
+      have ht := procNew_track io s.lib args
+      have hf := procNew_fail_none io s.lib args
+      subst hr
+      simp only [Multi.held, hl, R.val] at *
+      rw [ht]
+      cases hout : (procNew io Cfg.fixed s.lib args).out with
       | ok v => simp [hout, Out.map] at hk; subst hk; simp
       | raised e => simp [hout, Out.map] at hk hf; subst hk; simp [hf]
       | ub => simp [hout, Out.map] at hk hf; subst hk; simp [hf]
